@@ -31,11 +31,11 @@ def eval_batches(ctx, name, imports, bodies, shards=12, timeout=1500):
     def run(k):
         text = HEADER + ''.join(slim(bodies[i]) for i in groups[k])
         return ctx.coq_eval('%s_%d' % (name, k), imports, text, timeout=timeout)
-    first = run(0)                      # builds the imports once
+    ctx.coq_eval('%s_warm' % name, imports, '', timeout=timeout)      # builds the imports once (serialised)
     with ThreadPoolExecutor(max_workers=len(groups)) as ex:
-        rest = list(ex.map(run, range(1, len(groups))))
+        allres = list(ex.map(run, range(len(groups))))
     out = [None] * len(bodies)
-    for g, res in zip(groups, [first] + rest):
+    for g, res in zip(groups, allres):
         assert len(res) == len(g), (len(res), len(g))
         for i, r in zip(g, res):
             out[i] = r
